@@ -182,6 +182,9 @@ class Gen:
     def emit(self, name, args, dims, **par):
         t = any(self.H[a]["t"] for a in args)
         if name in ("cadd", "cmul", "csq", "cfma"):
+            # a user operation is tracked iff it comes with a derivative; now and then it has one although
+            # every operand is untracked
+            t = t or self.r.random() < 0.15
             par["bw"] = t
         h = self.new(dims, t)
         self.steps.append(op(name, args, h, **par))
@@ -475,7 +478,7 @@ def c11_cases(tier, seed):
         d = rnd.choice([[1], [2], [2, 2]])
         g = Gen(rnd)
         for _ in range(rnd.randint(1, 3)):
-            g.leaf(d, trk=rnd.random() < 0.8)
+            g.leaf(d, trk=rnd.random() < 0.65)
         for _ in range(rnd.randint(2, 9)):
             name = rnd.choice(["cadd", "cmul", "cmul", "csq", "cfma"])
             ar = {"cadd": 2, "cmul": 2, "csq": 1, "cfma": 3}[name]
